@@ -198,6 +198,16 @@ static std::string signature(const Polyhedron& p) {
   s += st.test_g_pending() ? 'Q' : '-';
   s += p.con_sys.is_sorted() ? 'o' : '-';
   s += p.gen_sys.is_sorted() ? 'O' : '-';
+  // stale (not up-to-date) components that still hold rows of an earlier state: code that forgets to
+  // clear or rebuild them behaves differently from the same flags over empty components
+  if (!st.test_empty() && !st.test_zero_dim_univ()) {
+    std::string x;
+    if (!st.test_c_up_to_date() && p.con_sys.num_rows() > 0) x += 'k';
+    if (!st.test_g_up_to_date() && p.gen_sys.num_rows() > 0) x += 'h';
+    if (!st.test_sat_c_up_to_date() && p.sat_c.num_rows() > 0) x += 'x';
+    if (!st.test_sat_g_up_to_date() && p.sat_g.num_rows() > 0) x += 'y';
+    if (!x.empty()) s += "+" + x;
+  }
   return s;
 }
 
@@ -207,6 +217,9 @@ static std::vector<GN> GM;      // generators (dimension-2 vectors; truncated fo
 static std::vector<LE> EM;      // expressions
 
 static int MAXDIM = 2;
+static bool NARROW = false;   // narrow builder alphabet (deep phase A)
+static bool FOLLOW = false;   // apply follow-up builders to every transformer result (C02)
+static std::vector<int> FOLLOWUPS;   // indices into OPS
 static size_t CM3 = 0, GM3 = 0;   // first index of the dimension-3 entries (when MAXDIM >= 3)
 static void build_menus() {
   using ref::EQ; using ref::GE; using ref::GT;
@@ -272,9 +285,10 @@ struct Op {
   // relational check instead of equality (refine_with_*, simplify): returns "" if fine, else clause text
   std::function<std::string(const Cell& before, const Cell* operand, const Cell& after, const std::string& ret, bool nnc)> relcheck;
   bool builder;    // member of the phase-A alphabet
+  bool builder_kind; // built as a builder (stays set when --narrow removes it from the alphabet)
   bool observer;   // value-preserving
   bool convert;    // builds an object of the other topology from the receiver; that object is checked
-  Op() : binary(false), builder(false), observer(false), convert(false) {}
+  Op() : binary(false), builder(false), builder_kind(false), observer(false), convert(false) {}
 };
 static std::vector<Op> OPS;
 
@@ -286,7 +300,7 @@ static PPL::Relation_Symbol relsym_ppl(int r) {
     case 3: return PPL::GREATER_OR_EQUAL; default: return PPL::GREATER_THAN; }
 }
 
-static void add_op(const Op& o) { OPS.push_back(o); }
+static void add_op(const Op& o) { OPS.push_back(o); OPS.back().builder_kind = o.builder; }
 
 static void build_ops() {
   // ---- builders: add_constraint
@@ -334,6 +348,7 @@ static void build_ops() {
     // systems of 2 and 3 generators; the triples complete a universe / half-plane out of lines and rays
     // that are all pending at once (fast paths that count pending lines and rays: is_universe, is_bounded)
     std::vector<std::vector<int> > gp = {{1, 7}, {3, 11}, {13, 5}, {11, 8, 16}, {12, 9, 10}, {7, 10, 8}, {0, 11, 8}};
+    if (NARROW) gp.push_back({0, 1, 2});      // triangle
     if (MAXDIM >= 3) {
       int g = (int)GM3;
       // triangle in the plane C = 0, the edge above it, a prism direction, a wedge with lineality
@@ -390,6 +405,23 @@ static void build_ops() {
     o.apply = [ob](Polyhedron& p, const Polyhedron*) { ob.f(p); return std::string(); };
     o.refv = [](const Cell& v, const Cell*, bool) { return v; };
     add_op(o);
+  }
+
+  // follow-up builders applied to transformer results (C02 --followups)
+  {
+    std::set<std::string> fn = { "add_constraint(" + CM[4].str() + ")", "add_constraint(" + CM[10].str() + ")",
+                                 "add_constraint(" + CM[8].str() + ")", "add_generator(" + GM[6].str() + ")" };
+    for (size_t i = 0; i < OPS.size(); ++i) if (OPS[i].builder && fn.count(OPS[i].name)) FOLLOWUPS.push_back((int)i);
+  }
+  if (NARROW) {
+    // deep phase A over a narrow alphabet: a few constraints and generators of each kind, two systems, all observers
+    std::set<std::string> keep;
+    for (int i : {0, 3, 4, 8, 13}) keep.insert("add_constraint(" + CM[i].str() + ")");
+    for (int i : {0, 5, 7, 12, 13}) keep.insert("add_generator(" + GM[i].str() + ")");
+    keep.insert("add_constraints({" + CM[0].str() + "," + CM[4].str() + "})");
+    keep.insert("add_generators({" + GM[0].str() + "," + GM[1].str() + "," + GM[2].str() + "})");
+    keep.insert("add_generators({" + GM[11].str() + "," + GM[8].str() + "," + GM[16].str() + "})");
+    for (size_t i = 0; i < OPS.size(); ++i) if (OPS[i].builder && !OPS[i].observer && !keep.count(OPS[i].name)) OPS[i].builder = false;
   }
 
   if (MODE == "C01") return;
@@ -1045,12 +1077,26 @@ static std::vector<int> REPS;      // receivers
 static std::vector<std::vector<int> > GROUPS;   // receivers grouped by value class (one work item each)
 static std::vector<int> POOL;      // operands
 
-static void choose_reps(bool all_states, int pool_classes, int pool_sigs) {
+static void choose_reps(bool all_states, int pool_classes, int pool_sigs, int reps_per_sig) {
   std::map<std::pair<int, std::string>, int> first;
   for (size_t s = 0; s < ST.size(); ++s) {
     std::pair<int, std::string> k(ST[s].cls * 2 + ST[s].nnc, ST[s].sig);
     if (!first.count(k)) { first[k] = (int)s; if (!all_states) REPS.push_back((int)s); }
     if (all_states) REPS.push_back((int)s);
+  }
+  if (reps_per_sig > 0 && !all_states) {
+    // deep narrow runs: the point is the lazy-state signature, not the value: keep, per (topology, dimension,
+    // signature), an evenly spaced sample of the value classes that reach it
+    std::map<std::string, std::vector<int> > by_sig;
+    for (int r : REPS) by_sig[std::string(ST[r].nnc ? "N" : "C") + std::to_string(ST[r].dim) + ST[r].sig].push_back(r);
+    REPS.clear();
+    for (auto& kv : by_sig) {
+      std::vector<int>& m = kv.second; std::sort(m.begin(), m.end());
+      int n = (int)m.size();
+      if (n <= reps_per_sig) { REPS.insert(REPS.end(), m.begin(), m.end()); continue; }
+      for (int j = 0; j < reps_per_sig; ++j) REPS.push_back(m[(long long)j * (n - 1) / (reps_per_sig - 1)]);
+    }
+    std::sort(REPS.begin(), REPS.end()); REPS.erase(std::unique(REPS.begin(), REPS.end()), REPS.end());
   }
   // operand pool: the first `pool_classes` value classes per (topology, dim), `pool_sigs` lazy variants each
   std::map<std::pair<int, int>, std::vector<int> > cls_order;      // (nnc,dim) -> classes in discovery order
@@ -1160,7 +1206,7 @@ static void run_ops_on(int s, long long& sub, long long sub_start) {
   const State& st = ST[s];
   for (size_t oi = 0; oi < OPS.size(); ++oi) {
     const Op& op = OPS[oi];
-    if (op.builder && MODE == "C02") continue;      // builders are covered by phase A + C01
+    if (op.builder_kind && MODE == "C02") continue;      // builders are covered by phase A + C01
     std::vector<int> operands;
     if (op.binary) operands = POOL; else operands.push_back(-1);
     for (int o : operands) {
@@ -1241,7 +1287,26 @@ static void run_ops_on(int s, long long& sub, long long sub_start) {
           const std::string& wr = RETMEMO[mk];
           if (wr != ret && violcap().admit(site + "|ret")) report_violation(site, "return:boolean!=model", "none", inj, ret, wr);
         }
+        PH pre; if (FOLLOW) pre.reset(clone(*p));
         check_value(*p, want, site, inj);
+        // one more incremental step on the result (before anything observed it): lazy state left behind by the
+        // operation (stale saturation rows, flags) only shows in what the NEXT mutator builds on it
+        if (FOLLOW) for (int fi : FOLLOWUPS) {
+          const Op& f = OPS[fi];
+          Ctx fx; fx.nnc = st.nnc; fx.dim = (int)pre->space_dimension(); fx.cls = want; fx.ocls = -1; fx.odim = -1;
+          if (!f.ok(fx)) continue;
+          PH q(clone(*pre));
+          std::string inj2 = input_json(s, op.name + " then " + f.name, o);
+          try { f.apply(*q, 0); }
+          catch (const std::exception& ex) { if (violcap().admit(site + "|fexc")) report_violation(site, "followup:unexpected-exception", "none", inj2, ex.what(), "no exception"); continue; }
+          count(CNT_TRANS);
+          std::string fk = "F" + std::to_string(want) + "|" + std::to_string(fi) + (st.nnc ? "N" : "C");
+          int want2;
+          std::unordered_map<std::string, int>::iterator fit = OPMEMO.find(fk);
+          if (fit != OPMEMO.end()) want2 = fit->second;
+          else { RefGuard guard; want2 = CL.classify(f.refv(CL[want], 0, st.nnc)); OPMEMO[fk] = want2; }
+          check_value(*q, want2, site, inj2);
+        }
       }
       // the const operand must keep its value
       if (oc) {
@@ -1284,7 +1349,7 @@ static std::string substep_name(int s, long long target) {
   } else {
     for (size_t oi = 0; oi < OPS.size(); ++oi) {
       const Op& op = OPS[oi];
-      if (op.builder) continue;
+      if (op.builder_kind) continue;
       std::vector<int> operands; if (op.binary) operands = POOL; else operands.push_back(-1);
       for (int o : operands) {
         if (o >= 0 && ST[o].nnc != st.nnc) continue;
@@ -1343,6 +1408,8 @@ static int replay_main() {
   printf("receiver model value: %s\nreceiver dump:\n%s\n", ref::cell_str(m).c_str(), dump_of(*p).c_str());
   if (o) printf("operand model value: %s\n", ref::cell_str(om).c_str());
   std::string name = P.substr(0, P.find(" operand="));
+  std::string follow;
+  if (name.find(" then ") != std::string::npos) { follow = name.substr(name.find(" then ") + 6); name = name.substr(0, name.find(" then ")); }
   for (size_t qi = 0; qi < QS.size(); ++qi) if (QS[qi].name == name) {
     std::string got; try { got = QS[qi].run(*p, o.get()); } catch (const std::exception& e) { got = std::string("exception:") + e.what(); }
     std::string want = QS[qi].expect(m, o ? &om : 0, nnc);
@@ -1351,6 +1418,12 @@ static int replay_main() {
   }
   for (size_t oi = 0; oi < OPS.size(); ++oi) if (OPS[oi].name == name && !OPS[oi].convert) {
     std::string ret; try { ret = OPS[oi].apply(*p, o.get()); } catch (const std::exception& e) { ret = std::string("exception:") + e.what(); }
+    const Op* fop = 0;
+    if (!follow.empty()) {
+      for (size_t fi = 0; fi < OPS.size(); ++fi) if (OPS[fi].name == follow && OPS[fi].builder_kind) fop = &OPS[fi];
+      if (!fop) { fprintf(stderr, "replay: unknown follow-up '%s'\n", follow.c_str()); return 2; }
+      fop->apply(*p, 0);
+    }
     int n = p->space_dimension();
     std::unique_ptr<Polyhedron> second(clone(*p));
     Cell gc = ref::normalized(cell_of(p->minimized_constraints(), n));
@@ -1358,6 +1431,7 @@ static int replay_main() {
     printf("operation %s returned '%s'\n  result (constraints): %s\n  result (generators):  %s\n", name.c_str(), ret.c_str(), ref::cell_str(gc).c_str(), ref::cell_str(gg).c_str());
     if (OPS[oi].refv) {
       Cell want = ref::normalized(OPS[oi].refv(m, o ? &om : 0, nnc));
+      if (fop) want = ref::normalized(fop->refv(want, 0, nnc));
       bool a = ref::equal(gc, want), b = ref::equal(gg, want);
       printf("  reference:            %s\n  %s\n", ref::cell_str(want).c_str(), (a && b) ? "AGREE" : "DISAGREE");
       return (a && b) ? 0 : 1;
@@ -1387,6 +1461,8 @@ int main(int argc, char** argv) {
   int max_dim = atoi(ARGS.opt("--maxdim", "2").c_str());
   int min_dim = atoi(ARGS.opt("--mindim", "0").c_str());
   MAXDIM = max_dim;
+  NARROW = ARGS.has("--narrow");
+  FOLLOW = ARGS.has("--followups");
   int pool_classes = atoi(ARGS.opt("--pool", ARGS.thorough() ? "60" : "36").c_str());
   int pool_sigs = atoi(ARGS.opt("--poolsigs", ARGS.thorough() ? "3" : "2").c_str());
   bool all_states = ARGS.has("--all-states");
@@ -1396,7 +1472,7 @@ int main(int argc, char** argv) {
   double t0 = now_s();
   phase_a(depth, min_dim, max_dim);
   double ta = now_s() - t0;
-  choose_reps(all_states, pool_classes, pool_sigs);
+  choose_reps(all_states, pool_classes, pool_sigs, atoi(ARGS.opt("--reps-per-sig", "0").c_str()));
   fprintf(stderr, "[poly %s] phase A: depth=%d states=%zu transitions=%lld classes=%zu signatures=%zu reps=%zu pool=%zu in %.1fs\n",
           MODE.c_str(), depth, ST.size(), TRANS_A, CL.cells.size(), SIGS.size(), REPS.size(), POOL.size(), ta);
   // interleave work so that shards are balanced: item i -> REPS[i]
@@ -1438,7 +1514,7 @@ int main(int argc, char** argv) {
     .num("oracle_comparisons", counter(CNT_CHECKS)).num("items_skipped_by_deadline", counter(CNT_SKIPPED)).num("cases_skipped_oracle_resource_limit", counter(CNT_REFCRASH)).arr("signatures_reached", sigs);
   J st; st.str("t", "stats").num("states", ST.size()).num("transitions", TRANS_A + counter(CNT_TRANS))
     .num("traces_validated_against_impl", TRANS_A + counter(CNT_TRANS)).boolean("exhaustive", complete)
-    .str("bound", "phase A depth " + std::to_string(depth) + ", " + std::to_string(min_dim) + "<=dim<=" + std::to_string(max_dim) + (all_states ? ", all states" : ", one representative per (value class, signature)"))
+    .str("bound", "phase A depth " + std::to_string(depth) + ", " + std::to_string(min_dim) + "<=dim<=" + std::to_string(max_dim) + (all_states ? ", all states" : ", one representative per (value class, signature)") + (NARROW ? ", narrow builder alphabet" : "") + (FOLLOW ? ", 4 follow-up builders on every transformer result" : ""))
     .arr("samples", samples).raw("extra", extra.done()).dbl("wall_s", now_s() - t0);
   sink().line(st.done());
   return 0;
